@@ -2,9 +2,11 @@
 // harnesses.  The server side is the REAL bfe_http2 Server.ServeConn (started through the verif hook
 // VerifC33Serve).
 //
-// Client -> server bytes travel over a net.Pipe (synchronous: a Write returns only when the server's
-// frame reader consumed every byte; because the reader asks for the next frame only after the serve
-// loop processed the previous one, "Write of frame k+1 returned" implies "frame k was processed").
+// Client -> server bytes are put into an in-memory buffer the server's frame reader consumes.  The
+// reader goroutine asks for the next frame only after the serve loop has processed the previous one
+// (readFrames' gate), so "the reader is blocked in Read on an empty buffer" implies "every frame sent so
+// far has been processed": WaitIdle waits for exactly that.  No marker frames are needed, so a script can
+// consist exclusively of frames that end in an error path.
 // Server -> client bytes are collected in memory; the connection can be told to STALL, i.e. to block
 // the server's next conn.Write until released (a client that does not read).
 package h2c33
@@ -14,6 +16,7 @@ import (
 	"encoding/binary"
 	"errors"
 	"fmt"
+	"io"
 	"net"
 	"sort"
 	"strconv"
@@ -31,7 +34,11 @@ func (addr) String() string  { return "verif-client" }
 
 // Conn is the server's view of the connection.
 type Conn struct {
-	rd net.Conn // server end of the client->server pipe
+	rmu     sync.Mutex // client -> server direction
+	rcond   *sync.Cond
+	rbuf    []byte
+	waiting bool // the server's reader is blocked in Read with nothing buffered
+	rclosed bool
 
 	mu      sync.Mutex
 	out     bytes.Buffer
@@ -42,7 +49,54 @@ type Conn struct {
 	once    sync.Once
 }
 
-func (c *Conn) Read(p []byte) (int, error) { return c.rd.Read(p) }
+func (c *Conn) Read(p []byte) (int, error) {
+	c.rmu.Lock()
+	defer c.rmu.Unlock()
+	for len(c.rbuf) == 0 && !c.rclosed {
+		c.waiting = true
+		c.rcond.Broadcast()
+		c.rcond.Wait()
+	}
+	c.waiting = false
+	if len(c.rbuf) == 0 {
+		return 0, io.EOF
+	}
+	n := copy(p, c.rbuf)
+	c.rbuf = c.rbuf[n:]
+	return n, nil
+}
+
+// feed appends client bytes; false if the connection is closed.
+func (c *Conn) feed(b []byte) bool {
+	c.rmu.Lock()
+	defer c.rmu.Unlock()
+	if c.rclosed {
+		return false
+	}
+	c.rbuf = append(c.rbuf, b...)
+	c.waiting = false
+	c.rcond.Broadcast()
+	return true
+}
+
+// waitIdle waits until the server's reader has consumed everything and is blocked waiting for more
+// (true), or the connection was closed / the timeout expired (false).
+func (c *Conn) waitIdle(d time.Duration) bool {
+	expired := false
+	t := time.AfterFunc(d, func() {
+		c.rmu.Lock()
+		expired = true
+		c.rcond.Broadcast()
+		c.rmu.Unlock()
+	})
+	defer t.Stop()
+	c.rmu.Lock()
+	defer c.rmu.Unlock()
+	for !(c.waiting && len(c.rbuf) == 0) && !c.rclosed && !expired {
+		c.rcond.Wait()
+	}
+	return c.waiting && len(c.rbuf) == 0 && !c.rclosed
+}
 func (c *Conn) Write(p []byte) (int, error) {
 	c.mu.Lock()
 	if c.stall {
@@ -71,7 +125,11 @@ func (c *Conn) Write(p []byte) (int, error) {
 }
 func (c *Conn) Close() error {
 	c.once.Do(func() { close(c.closed) })
-	return c.rd.Close()
+	c.rmu.Lock()
+	c.rclosed = true
+	c.rcond.Broadcast()
+	c.rmu.Unlock()
+	return nil
 }
 func (c *Conn) LocalAddr() net.Addr                { return addr{} }
 func (c *Conn) RemoteAddr() net.Addr               { return addr{} }
@@ -82,7 +140,6 @@ func (c *Conn) SetWriteDeadline(t time.Time) error { return nil }
 // Client is the scripted peer.
 type Client struct {
 	C    *Conn
-	wr   net.Conn // client end of the pipe
 	V    *bfe_http2.VerifC33Conn
 	henc *hpack.Encoder
 	hbuf bytes.Buffer
@@ -91,9 +148,9 @@ type Client struct {
 
 // Start creates the connection pair and starts the real server on it.
 func Start(h interface{}, conf *bfe_http2.Server, serve func(c net.Conn) *bfe_http2.VerifC33Conn) *Client {
-	srvEnd, cliEnd := net.Pipe()
-	c := &Conn{rd: srvEnd, blocked: make(chan struct{}, 1), release: make(chan struct{}), closed: make(chan struct{})}
-	cl := &Client{C: c, wr: cliEnd}
+	c := &Conn{blocked: make(chan struct{}, 1), release: make(chan struct{}), closed: make(chan struct{})}
+	c.rcond = sync.NewCond(&c.rmu)
+	cl := &Client{C: c}
 	cl.henc = hpack.NewEncoder(&cl.hbuf)
 	cl.V = serve(c)
 	return cl
@@ -101,7 +158,6 @@ func Start(h interface{}, conf *bfe_http2.Server, serve func(c net.Conn) *bfe_ht
 
 func (cl *Client) Close() {
 	cl.C.Close()
-	cl.wr.Close()
 	if cl.V != nil {
 		select {
 		case <-cl.V.Done:
@@ -111,11 +167,7 @@ func (cl *Client) Close() {
 }
 
 // Send writes raw bytes to the server; false if the server closed the connection.
-func (cl *Client) Send(b []byte) bool {
-	cl.wr.SetWriteDeadline(time.Now().Add(120 * time.Second)) // generous: the machine may be heavily loaded
-	_, err := cl.wr.Write(b)
-	return err == nil
-}
+func (cl *Client) Send(b []byte) bool { return cl.C.feed(b) }
 
 func Frame(typ, flags byte, id uint32, payload []byte) []byte {
 	b := make([]byte, 9+len(payload))
@@ -198,9 +250,17 @@ func (cl *Client) Headers(id uint32, decl int64, end bool) []byte {
 	return Frame(THeaders, fl, id, append([]byte(nil), cl.hbuf.Bytes()...))
 }
 
-// Sync sends a frame the server ignores (PING with ACK); when it returns true every frame sent
-// before it has been processed by the serve loop.
-func (cl *Client) Sync() bool { return cl.Send(Ping(true)) && cl.Send(Ping(true)) }
+// Sync returns true when every frame sent so far has been processed by the serve loop (the server's
+// frame reader is waiting for more input); false if the connection was closed.
+// The reader is released (readMore) just before the serve loop finishes its iteration, so a round trip
+// through the serve loop (Snap, served in a later iteration or refused once serve() has returned) makes
+// sure that iteration — including its end-of-iteration checks — is over.
+func (cl *Client) Sync() bool {
+	if !cl.C.waitIdle(120 * time.Second) {
+		return false
+	}
+	return cl.V.Snap().Alive
+}
 
 // Stall makes the server's next conn.Write block; WaitBlocked waits until it does.
 func (cl *Client) Stall() {
